@@ -37,6 +37,7 @@ class Contract:
         self.exc_post = []       # (label, fn(a) with a.exc)
         self.callees = {}        # qualname -> Callee
         self.natives = set()     # qualnames of repo functions that may run natively
+        self.native_modules = set()  # modules whose functions run natively (verified elsewhere)
         self.loops = {}          # (qualname, ordinal) -> LoopSpec
         self.module = None
         self.setup = None        # fn(g) run before inputs (ghost state)
